@@ -62,6 +62,7 @@ def restart_compare(sess, d, gen, snap, min_index, label, seqm):
     b = sess.call("barrier", min_index=min_index, bound_ms=RECOVER_BOUND_MS)
     if not b.get("ok"):
         return sess, {"symptom": "not-quiescent-before-stop", "inconclusive": True, "detail": b}
+    sess.call("actor_barrier", ms=50)     # cross-actor fire-and-forget messages (weak namespaces ...) have settled
     before = sess.call("dump", **gen.dump_args())
     m = sess.call("metrics")
     sess.call("sleep", ms=120)   # in-flight blocking file writes land
@@ -70,6 +71,7 @@ def restart_compare(sess, d, gen, snap, min_index, label, seqm):
     b2 = sess.call("barrier", min_index=m.get("last_log_index", 0), bound_ms=RECOVER_BOUND_MS)
     if not b2.get("ok"):
         return sess, {"symptom": "not-recovered-within-bound", "where": label, "detail": {"barrier": b2, "before_stop": m}}
+    sess.call("actor_barrier", ms=50)
     after = sess.call("dump", **gen.dump_args())
     if not after.get("ok") or not before.get("ok"):
         return sess, {"symptom": "dump-error", "inconclusive": True, "detail": [before.get("err"), after.get("err")]}
